@@ -17,7 +17,7 @@ MANIFEST = {
                  "replace_and_simplify / DeMorganSimplifier / PostfixLogicBuilder / LogicStack / "
                  "InternalSurfaceFlagger; differential correspondence model vs real classes on "
                  "structured op scripts; exhaustive truth-table oracle on the real code",
-    "text": "Theorems over the model (Props/C10.lean, 39 obligations) for all trees, nodes and "
+    "text": "Theorems over the model (Props/C10.lean, 42 obligations) for all trees, nodes and "
             "sense assignments, no size bound: (a) the 32-bit LogicStack evaluator refines the "
             "list-stack reference for every well-formed logic with calc_max_depth <= 32 (bound "
             "shown sharp at 33), calc_max_depth bounds the stack at every point; (b) the logic "
@@ -32,7 +32,13 @@ MANIFEST = {
             "every assignment with key = value; (e) transform_negated_joins under its documented "
             "precondition always returns (none of the compiled-out assertions can fire), the new "
             "tree satisfies the invariant, every volume keeps its denotation and no negated join "
-            "remains; (f) a node flagged `simple` is a constant times a conjunction of surface "
+            "remains, also on trees WITH alias chains of any depth (deMorgan_preserves_alias: the "
+            "code reads the tree only through dealias, so a successful run equals the run on the "
+            "resolved tree; the check feeds transform_negated_joins trees with alias chains of "
+            "depth >= 2 in every run and counts the depths); outside the documented precondition "
+            "the unchanged code throws (negation of an alias of a join) or crashes (double "
+            "negation through an alias) - kernel-checked witnesses, replayed, keyed findings; "
+            "(f) a node flagged `simple` is a constant times a conjunction of surface "
             "literals when no negation points through aliases at a join (hypothesis shown "
             "necessary); the RUNTIME flag the tracker reads (runtimeFlag_sound / "
             "runtimeFlag_sound_proto: UnitProto::build -> UnitInserter::insert_volume / "
